@@ -154,11 +154,20 @@ def evaluate(case):
             except Exception:   # noqa
                 pass
             info.add("print_failed_or_abandoned_before")
-        if case.get("colored_first", True):
+        lazy = case.get("lazy") or 0
+        if lazy:
+            # results are lazy: both are requested first and rendered afterwards (coloured one first, or second)
+            c_res = printer(value)
+            res = printer(value, no_color=True)
+            if lazy == 1:
+                colored = str(c_res)
+            info.add("both_results_requested_before_either_is_rendered")
+        elif case.get("colored_first", True):
             colored = str(printer(value))
+            res = printer(value, no_color=True)
         else:
             colored = None
-        res = printer(value, no_color=True)
+            res = printer(value, no_color=True)
         for ob in case.get("observe") or []:
             # looking at the result object (what a console echo, a debugger, a log statement or a caller that builds a
             # larger text out of it does) before its text is taken does not change that text
@@ -184,6 +193,8 @@ def evaluate(case):
                 res.fixed_len(len(res) + 2)        # (of exact length it may be the text itself: C08 ASSUMPTIONS; not extended)
             info.add("result_object_observed_before_use")
         text = str(res)
+        if lazy == 2:
+            colored = str(c_res)
         lines = [ln.plain_text() for ln in printer(value, no_color=True)]
         # the same, but every line object is kept and only looked at after the iteration is over
         kept = list(printer(value, no_color=True))
@@ -349,7 +360,8 @@ def st_case():
                 lambda c: st.sampled_from([None, None, 0, 1, 2, 3]).map(lambda a: dict(c, abandon=a))).flatmap(
                 lambda c: (st.just([]) | st.just([]) | st.lists(st.sampled_from(
                     ["repr", "len", "eq", "add", "radd", "copy_extended", "slice", "format", "fixed_len"]), min_size=1, max_size=3)
-                ).map(lambda o: dict(c, observe=o))))
+                ).map(lambda o: dict(c, observe=o))).flatmap(
+                lambda c: st.sampled_from([0, 0, 0, 1, 2]).map(lambda z: dict(c, lazy=z))))
     return st.sampled_from(["json", "py"]).flatmap(for_mode)
 
 
